@@ -13,7 +13,7 @@ TECHNIQUE = ('bounded exhaustive evaluation of the frozen function tables of C12
 RULE = ('every table entry x every lattice argument x precisions {10, 53, one of 24/70/113/200/400 by seed, 1000 for the cheap families; thorough: 2000, 3000, 3333}; '
         'extra arguments where asymptotic expansions are used at the edge of their validity: |x| in [0.25,1.5]*(p+20), |z| ~ 0.11p and 0.2p, complex '
         'arguments with imaginary part between 2^-p and 2^-0.8p, equal complex arguments of agm, tiny and huge values up to 10^6.  Budget per call: 5 s '
-        '(p<=400), 20 s (p=1000), 60 s above; typical cost is milliseconds, so an overrun confirmed by a 4x re-run is reported as non-termination '
+        '(p<=400), 20 s (1000 bits, quick: cheap families only), thorough: 150 s (1000 bits) and 400 s above (the slowest legitimate calls measured take 160 s unloaded); typical cost is milliseconds, so an overrun confirmed by a 4x re-run is reported as non-termination '
         '(after two confirmed overruns of one function in one argument class a task skips the remaining arguments of that class and counts them). '
         'Returning or raising any documented exception (ValueError, ZeroDivisionError, NoConvergence, NotImplementedError, OverflowError) is a pass. '
         'Excluded (counted): fac2 at complex arguments with |im| > 64, whose value (pi/2)^(cosh(pi*im)/4) needs multi-million-bit argument reduction. non-trivial = every completed call; bounded statement: no hang on this lattice')
@@ -53,11 +53,12 @@ def precs(tier, seed):
 def tasks(tier, seed):
     T = tables()
     out = []
+    th = ('thorough',) if tier == 'thorough' else ()
     for p in precs(tier, seed):
         for i in range(len(T)):
-            out.append(('tab', i, p))
+            out.append(('tab', i, p) + th)
         for name in ELEM:
-            out.append(('elem', name, p))
+            out.append(('elem', name, p) + th)
     # the cheap families also at 1000 bits in quick
     if tier != 'thorough':
         for i, (prop, e) in enumerate(T):
@@ -69,7 +70,16 @@ def tasks(tier, seed):
 
 
 def budget_for(p):
-    return 5 if p <= 400 else (20 if p <= 1000 else 60)
+    # measured on this machine without load: hyp3f2(..., 1) at 1000 bits 160 s, polylog(2+i, 1.375) at 2000 bits 130 s, primezeta(1+1020i) at 1000 bits 70 s;
+    # the thorough tier runs 16 such calls in parallel, so a confirmed overrun there means > 10 min (1000 bits) / > 27 min (above)
+    if p <= 400:
+        return 5
+    if not THOROUGH[0]:
+        return 20 if p <= 1000 else 60
+    return 150 if p <= 1000 else 400
+
+
+THOROUGH = [False]
 
 
 CONFIRM = 4          # an overrun is re-run with CONFIRM x the budget
@@ -126,7 +136,8 @@ def value_is_doubly_exponential(fname, args):
 
 
 def t_tab(task):
-    _, i, p = task
+    _, i, p = task[:3]
+    THOROUGH[0] = len(task) > 3
     from mpmath import mp
     acc = Acc()
     prop, ent = tables()[i]
@@ -149,7 +160,8 @@ def t_tab(task):
 
 
 def t_elem(task):
-    _, name, p = task
+    _, name, p = task[:3]
+    THOROUGH[0] = len(task) > 3
     from mpmath import mp
     acc = Acc()
     hung = {}
